@@ -35,10 +35,10 @@ func main() {
 				r.Count("sender_disconnected", 1)
 			}
 			if st.Panic != "" {
-				r.Violation(evid.Sig("c01/panic", st.Kind), "handler panicked: "+st.Panic, witness(s, st))
+				r.Violation(evid.Sig("c01/panic", st.Kind)+s.SigSuffix, "handler panicked: "+st.Panic, witness(s, st))
 			}
 			for _, f := range l1.CheckC01(s, st) {
-				r.Violation(f.Sig, f.What, witness(s, st))
+				r.Violation(f.Sig+s.SigSuffix, f.What, witness(s, st))
 			}
 			if st.Index == 3 {
 				r.Sample(map[string]any{"session_seed": s.Seed, "script_head": head(s.Steps, 12)})
@@ -49,7 +49,7 @@ func main() {
 			if st != nil {
 				kind = st.Kind
 			}
-			r.Violation(evid.Sig("c01/store-unreadable", classOf(kind)),
+			r.Violation(evid.Sig("c01/store-unreadable", classOf(kind))+s.SigSuffix,
 				fmt.Sprintf("store reads fail or disagree after step (%s): %v", kind, err), witness(s, st))
 		},
 		OnEnd: func(s *l1.Session, err error) {
@@ -60,7 +60,37 @@ func main() {
 			r.Count("sessions", 1)
 		},
 	}
+	r.Rule("family iofault (ONE transient I/O error underneath the real stores: a flat-file Write / short write / Truncate / Sync / ReadAt / Stat / Seek or a database Update / View failing once, at a chosen call position, while one headers message is handled or one filter-header round runs) in sessions with block AND filter headers synced: growth, reorganisations with the filter tip above the fork point, an off-chain peer running into a hard-coded checkpoint (rollback to the previous one); afterwards the same branch is offered again, filter-header rounds run, and the chain grows and reorganises again. A panic of the client in the step of the fault is the death of the process: stores reopened through the constructors, fresh block manager, peers reconnect; the reference restarts from what the reopened stores hold. If the client carries on, the same oracle applies to that step and to every later one. The first plans are seed-independent (truncate of either file in a reorganisation rollback / in the checkpoint rollback; a read failing right after a filter-header batch was committed; a short header write; the failed write of the first header of a new branch)")
+	nIO := r.Pick(30, 500)
+	ioCbs := l1.FilterCallbacks{
+		OnStep:     func(fs *l1.FilterSession, st *l1.StepObs) { cbs.OnStep(fs.Session, st) },
+		OnStoreErr: func(fs *l1.FilterSession, st *l1.StepObs, err error) { cbs.OnStoreErr(fs.Session, st, err) },
+		OnEnd: func(fs *l1.FilterSession, err error) {
+			var s *l1.Session
+			if fs != nil {
+				s = fs.Session
+			}
+			cbs.OnEnd(s, err)
+			counts, marks, inc := l1.IOFaultEvidence(fs)
+			for k, v := range counts {
+				r.Count(k, v)
+			}
+			for _, m := range marks {
+				r.Mark(m)
+			}
+			if inc != "" {
+				r.Inconclusive(inc)
+			}
+		},
+	}
+	// Development aid: L1_IOFAULT_ONLY=1 runs only this family; never set by
+	// registered commands.
+	if os.Getenv("L1_IOFAULT_ONLY") != "" {
+		l1.RunIOFaultFilter(r.Seed, nIO, ioCbs)
+		r.Finish(1)
+	}
 	l1.RunMany(r.Seed, n, cbs)
+	l1.RunIOFaultFilter(r.Seed, nIO, ioCbs)
 	// Wrap sessions: 12 000+ headers (the in-memory window is 10 000), forks
 	// from below the window, heavier-but-shorter branches in the thorough tier.
 	l1.RunWraps(r.Seed, r.Pick(2, 8), !r.Quick(), cbs)
